@@ -323,6 +323,8 @@ pub struct Temperature(f64);""")]),
     dict(id='c17-leap-days-truncated', property='C17', expect=r'R17\.[23]', edits=[(HJ,
          """            + ((3. + 11. * year) / 30.).floor()""",
          """            + ((3 + 11 * (year as i32)) / 30) as f64""")]),
+    dict(id='c17-refactor-quarter-product-silent', property='C17', expect=None, edits=[(HJ, '(y_1 / 4.).floor()', '(y_1 * 0.25).floor()')]),
+    dict(id='c17-reciprocal-product-inexact', property='C17', expect=r'R17\.(14|2)', edits=[(HJ, '+ ((3. + 11. * year) / 30.).floor()', '+ ((3. + 11. * year) * (1. / 30.)).floor()')]),
     # ---------------------------------------------------------------- C20
     dict(id='c20-gmt-sign', property='C20', expect=r'R20\.1', edits=[(JD, '(date.day() as f64 - f64::from(gmt) / 24.)', '(date.day() as f64 + f64::from(gmt) / 24.)')]),
     dict(id='c20-gmt-scale', property='C20', expect=r'R20\.1', edits=[(JD, '(date.day() as f64 - f64::from(gmt) / 24.)', '(date.day() as f64 - f64::from(gmt) / 12.)')]),
